@@ -249,6 +249,10 @@ def run(ctx):
     # if that selection is the specification's, so the auth-event selection rules of C09 are part of this check
     from . import C09 as _C09
     _C09.run(ctx)
+    # reverse topological power ordering is the Kahn sort with the TieBreaker order the heap really uses (Ord AND PartialOrd) and the mainline key:
+    # the order rules of C06 are part of this check
+    from . import C06 as _C06
+    _C06.run(ctx)
 
     # ---- the graph handed to the Kahn sort ----------------------------------------------------------------------------------
     ctx.rule("C07.graph", "add_event_and_auth_chain_to_graph: for every auth event of a visited event that is in the auth difference, the edge event -> auth event is "
